@@ -137,7 +137,8 @@ def register_executor(reg):
             'implies(subtest_rec is not None and old(subtest_rec.outcome) is not subtest_rec.outcome, '
             'subtest_rec.outcome is test_record.SubtestOutcome.FAIL)')
   c.ensures('checkpoints_only_appended', 'len(self.test_state.test_record.checkpoints) >= old(len(self.test_state.test_record.checkpoints))')
-  c.modifies('self._last_outcome', 'self._last_execution_unit', 'subtest_rec.outcome', 'list(self.test_state.test_record.checkpoints)')
+  c.modifies('self._last_outcome', 'self._last_execution_unit', 'subtest_rec.outcome', 'list(self.test_state.test_record.checkpoints)',
+             'list(self.test_state.test_record._cached_checkpoints)')
 
   # ---------------------------------------------------------------- the ladder: abort > terminal outcome > aggregation
   c = reg.contract(TE, 'TestExecutor._execute_test_teardown', props=['C01', 'C04'])
